@@ -99,3 +99,71 @@ Proof. unfold update_and_rearm. cbv zeta. repeat dm; cbn [fst]; autorewrite with
   autorewrite with nx. reflexivity. Qed.
 #[export] Hint Rewrite nx_add_lock nx_update_locked_lock : nx.
 
+
+(* ---------------------------------------------------------------- critical sections *)
+Ltac nx_pair f lem :=
+  let X := fresh "X" in pose proof lem as X; destruct f; cbn [fst] in X.
+Ltac nx_step :=
+  match goal with
+  | |- context [let '(_, _) := (if ?b then _ else _) in _] => destruct b
+  | |- context [let '(_, _) := (_, _) in _] => cbv iota beta
+  | |- context [let '(_, _) := push_lock_aof ?s ?k ?r ?f in _] => nx_pair (push_lock_aof s k r f) (nx_push_lock_aof s k r f)
+  | |- context [let '(_, _) := push_unlock_aof ?s ?k ?r ?a ?b ?c ?d in _] => nx_pair (push_unlock_aof s k r a b c d) (nx_push_unlock_aof s k r a b c d)
+  | |- context [let '(_, _) := add_expried ?s ?k ?r in _] => nx_pair (add_expried s k r) (nx_add_expried s k r)
+  | |- context [let '(_, _) := process_data ?s ?k ?r ?c ?b in _] => nx_pair (process_data s k r c b) (nx_process_data s k r c b)
+  | |- context [let '(_, _) := update_and_rearm ?s ?k ?r ?c in _] => nx_pair (update_and_rearm s k r c) (nx_update_and_rearm s k r c)
+  | |- context [let '(_, _) := get_wait_lock ?s ?k in _] => nx_pair (get_wait_lock s k) (nx_get_wait_lock s k)
+  | |- context [let '(_, _) := (match process_recover_lock_data ?a ?b with _ => _ end) in _] => destruct (process_recover_lock_data a b)
+  | |- context [let '(_, _) := (let '(_, _) := ?a in _) in _] => is_var a; destruct a
+  | |- context [if ?b then _ else _] => destruct b
+  | |- context [match ?x with _ => _ end] => destruct x
+  end.
+Ltac nx_fin :=
+  cbn [fst snd]; autorewrite with nx;
+  repeat (match goal with X : next ?a = _ |- context [next ?a] => rewrite X; clear X end; autorewrite with nx);
+  try reflexivity.
+Ltac nx_all := repeat (repeat nx_step; nx_fin).
+
+Lemma nx_wake_grant s k r via : next (fst (wake_grant s k r via)) = next s.
+Proof. unfold wake_grant. cbv zeta. nx_all. Qed.
+Ltac nx_step2 :=
+  match goal with
+  | |- context [let '(_, _) := wake_grant ?s ?k ?r ?v in _] => nx_pair (wake_grant s k r v) (nx_wake_grant s k r v)
+  | _ => nx_step
+  end.
+Lemma nx_wake_iter s w : next (fst (fst (wake_iter s w))) = next s.
+Proof. unfold wake_iter. cbv zeta. repeat (repeat nx_step2; nx_fin). Qed.
+Lemma nx_run_wake fuel : forall s w, next (fst (run_wake fuel s w)) = next s.
+Proof. induction fuel as [|f IH]; intros s w; simpl; [reflexivity|].
+  pose proof (nx_wake_iter s w) as X. destruct (wake_iter s w) as [[s1 e1] [|]]; cbn [fst] in *; [exact X|].
+  specialize (IH s1 w). destruct (run_wake f s1 w). cbn [fst] in *. congruence. Qed.
+Lemma nx_finish res : next (fst (finish res)) = next (fst (fst res)).
+Proof. destruct res as [[s ev] [w|]]; unfold finish; [|reflexivity].
+  pose proof (nx_run_wake (wake_fuel s (w_key w)) s w) as X. destruct (run_wake (wake_fuel s (w_key w)) s w). exact X. Qed.
+Lemma nx_cancel_wait_lock s conn c : next (fst (fst (cancel_wait_lock s conn c))) = next s.
+Proof. unfold cancel_wait_lock. cbv zeta. nx_all. Qed.
+Lemma nx_release_hold s k conn c r d : next (fst (release_hold s k conn c r d)) = next s.
+Proof. unfold release_hold. cbv zeta. nx_all. Qed.
+Ltac nx_step3 :=
+  match goal with
+  | |- context [let '(_, _) := release_hold ?s ?k ?cn ?c ?r ?d in _] => nx_pair (release_hold s k cn c r d) (nx_release_hold s k cn c r d)
+  | _ => nx_step
+  end.
+Lemma nx_ul_body s conn c k r : next (fst (fst (ul_body s conn c k r))) = next s.
+Proof. unfold ul_body. cbv zeta. repeat (repeat nx_step3; nx_fin). Qed.
+Lemma nx_unlock_step s conn c : next (fst (fst (unlock_step s conn c))) = next s.
+Proof. rewrite unlock_step_eq. cbv zeta.
+  destruct (aget (mgrs s) (c_key c)) as [m|]; [|reflexivity].
+  destruct (negb (leader s) && negb (has (c_flag c) UNLOCK_FLAG_FROM_AOF)); [reflexivity|].
+  destruct (m_locked m =? 0); [destruct (has (c_flag c) UNLOCK_FLAG_CANCEL_WAIT); [apply nx_cancel_wait_lock|reflexivity]|].
+  unfold ul_target. cbv zeta.
+  destruct (get_locked_lock s m (c_lockid c)) as [r|].
+  - destruct (negb (l_ack (getl s r) =? 255)); [reflexivity|apply nx_ul_body].
+  - destruct (has (c_flag c) UNLOCK_FLAG_FIRST).
+    + destruct (m_cur m) as [cr|]; [|reflexivity]. destruct (negb (l_ack (getl s cr) =? 255)); [reflexivity|apply nx_ul_body].
+    + destruct (has (c_flag c) UNLOCK_FLAG_CANCEL_WAIT); [apply nx_cancel_wait_lock|reflexivity].
+Qed.
+Lemma nx_do_timeout s r : next (fst (fst (do_timeout s r))) = next s.
+Proof. unfold do_timeout. cbv zeta. nx_all. Qed.
+Lemma nx_do_expried s r : next (fst (fst (do_expried s r))) = next s.
+Proof. unfold do_expried. cbv zeta. nx_all. Qed.
